@@ -414,6 +414,9 @@ def execute(trace, env=None):
                  tb=traceback.format_exc()[-1500:])
             return result(trace, viol, log, stats, False)
         load_reads = len(clock.reads)
+        # a model grown from a root book holds what the root references
+        # (model.cells); blank fillers of cells never read are not observed
+        root_loaded = list(model.cells) if s.get('mode') == 'root' else None
         exes = {0: Exe('model', model)}
         n_eval = 0
         nontrivial = False
@@ -454,7 +457,7 @@ def execute(trace, env=None):
             r0 = len(clock.reads)
             w0 = numpy_pos()
             try:
-                obs = evaluate(world, P, s, exe, fp)
+                obs = evaluate(world, P, s, exe, fp, root_loaded)
             except Exception as ex:
                 import traceback
                 fail('C13.eval', 'evaluation of %s raised %r' % (
@@ -537,12 +540,12 @@ def base_kind(exe):
     return exe.meta.get('base') or 'model'
 
 
-def evaluate(world, P, s, exe, fp):
+def evaluate(world, P, s, exe, fp, loaded=None):
     """-> Observation (cells not produced by this executable are missing)."""
     from formulas.ranges import Ranges
     bk = base_kind(exe)
     if bk == 'model':
-        return Observation(world, s['placement'], exe.obj.calculate())
+        return Observation(world, s['placement'], exe.obj.calculate(), loaded)
     consts = {P.rect_id(*cell_rect(c)): c['v']
               for c in world['cells'] if 'v' in c}
     if bk == 'compile':
@@ -776,8 +779,10 @@ def judge_rand(world, exe, i, c, got, prev, fail, stats, j):
         before = prev.get('c%d' % i)
         # (an error value - e.g. an operand that is #NUM! - hides the site:
         # nothing is demanded then)
+        # (next to 2**53 a draw from [0,1) no longer shows in the sum)
         if before is not None and before != MISSING and \
-                all(num(x) is not None for x in flat):
+                all(num(x) is not None and abs(num(x)) < 2 ** 40
+                    for x in flat):
             stats['rand_fresh_checked'] += 1
             if before == got:
                 fail('C13.fresh.rand', 'exe %d (%s): cell %d returned %s in '
